@@ -900,14 +900,14 @@ class FiniteDifferenceImplicitThermalProblem:
                 elif isinstance(self.tube.inner_bc, receiver.FixedTempBC):
                     R[self.dof(i, j, k)] = self.tube.inner_bc.temperature(
                         time, self.theta[1, j, k], self.z[1, j, k]
-                    )
+                    )[0]
                 # Fixed flux
                 elif isinstance(self.tube.inner_bc, receiver.HeatFluxBC):
                     R[self.dof(i, j, k)] = (
                         -self.dr
                         * self.tube.inner_bc.flux(
                             time, self.theta[1, j, k], self.z[1, j, k]
-                        )
+                        )[0]
                         / self.k[1, j, k]
                     )
                 # Convection
@@ -1003,7 +1003,7 @@ class FiniteDifferenceImplicitThermalProblem:
                 elif isinstance(self.tube.outer_bc, receiver.FixedTempBC):
                     R[self.dof(i, j, k)] = self.tube.outer_bc.temperature(
                         time, self.theta[self.nr - 2, j, k], self.z[self.nr - 2, j, k]
-                    )
+                    )[0]
                 # Fixed flux
                 elif isinstance(self.tube.outer_bc, receiver.HeatFluxBC):
                     R[self.dof(i, j, k)] = (
@@ -1012,7 +1012,7 @@ class FiniteDifferenceImplicitThermalProblem:
                             time,
                             self.theta[self.nr - 2, j, k],
                             self.z[self.nr - 2, j, k],
-                        )
+                        )[0]
                         / self.k[self.nr - 2, j, k]
                     )
                 # Convection
